@@ -2,17 +2,24 @@
 """Self-test of the fuzz-candidate handlers against false alarms: candidate inputs collected from differential searches on
 seeded changes (wild inputs: random payload bytes, forced options, odd option histories) are run through every property's
 handler on the CURRENT tree. On the unchanged tree every oracle and the correspondence must accept all of them.
-usage: fuzz_selftest.py <cands.json> [...]   (files as written by tools/fuzzsearch.py into work/fuzz_cache)"""
+usage: fuzz_selftest.py [--shuffle=<seed>] <cands.json> [...]   (files as written by tools/fuzzsearch.py into work/fuzz_cache)"""
 import json, os, sys
 sys.path.insert(0, os.path.dirname(os.path.abspath(__file__)))
 import check, props
 from fqlib import translate, build_harness, build_driver, Lock
 cands = {}
-for f in sys.argv[1:]:
+args = [a for a in sys.argv[1:] if not a.startswith("--shuffle=")]
+shuf = [a for a in sys.argv[1:] if a.startswith("--shuffle=")]
+for f in args:
     d = json.load(open(f))["cands"]
     for k, v in d.items():
         cands.setdefault(k, [])
         cands[k] += [x for x in v if x not in cands[k]]
+if shuf:
+    import random
+    r = random.Random(int(shuf[0].split("=")[1]))
+    for k in cands:
+        r.shuffle(cands[k])      # the handlers look at the first 150 (80 for raster) candidates of a stream: another slice each time
 print({k: len(v) for k, v in cands.items()})
 bad = 0
 with Lock():
